@@ -5,8 +5,7 @@ NOT_APPLICABLE = {
     "C15": "Comment/docstring preservation is a pure function of the input text; no state, schedule or fault is involved.",
     "C16": "The token-tiling invariant is a pure function of the input string observed on a deterministic token stream; no state, schedule or fault is involved.",
 }
-PENDING = {p: "not claimed yet: the simulated scenario for this property is designed (DESIGN.md section 5) but its check is still being built" for p in
-           ["C08"]}
+PENDING = {}
 
 TEXT = {
     "C04": {
@@ -92,5 +91,11 @@ TEXT = {
         "design_ref": "DESIGN.md section 5 C20",
         "level_text": "Seeded exploration: spokfiles of 1-5 tasks with marker-printing commands, docstrings, variables, optional default task; sequences of invocations so that skipped tasks appear; the --json document is compared with ground truth that does not come from spok (markers appended to a log by the commands themselves, the abstract program): exactly one document, exactly the closure once each, execution order == log order, skipped flag == no marker, per command cmd/stdout/stderr/status; --quiet prints nothing; --show sorted complete with docstrings; --vars complete; no arguments runs default or lists.",
         "level_note": "Trusted: the marker log as ground truth for what ran and in which order; whitespace-normalised comparison of the listing tables.",
+    },
+    "C08": {
+        "technique": "deterministic simulation with storage-fault injection on the spokfile (truncation at every byte, byte flips, splices) + step budgets at parser/lexer seams; bounded claim",
+        "design_ref": "DESIGN.md section 5 C08",
+        "level_text": "Bounded: the input space of C08 is every byte string; what simulation honestly delivers is the fault view — a valid stored spokfile damaged by a crash in the middle of a write (every prefix), a flipped byte, a spliced or lost line — parsed twice by the real lexer goroutine + parser in a bubble with step budgets (parser.next <= 4*len+16, lexer.next <= 64*(len+1)), and loaded through the CLI. Oracle: no panic (process journal), terminates within budget, same result twice, a syntax error cites a line in range and quotes it. Inputs that are not corruptions of valid programs are NOT explored.",
+        "level_note": "Trusted: budgets derived from the hook sites (one parser.next per token, lexer.next per rune plus peeks); journal attribution of process-killing panics in the lexer goroutine.",
     },
 }
